@@ -43,7 +43,7 @@ NAMES = ["A", "R:x", "x", "b c", "Ünï", "lower", "D/sub", "U:b c"]
 
 def finish():
     samples.append({"templates": NAMES[:3], "edges": [[0, 1], [1, 2], [2, 0]], "flags": [0], "note": "3-cycle"})
-    emit({"evaluations": evaluations, "distinct_nontrivial": len({d for d in distinct if d[1] or d[3]}),
+    emit({"evaluations": evaluations, "distinct_nontrivial": len({d for d in distinct if len(d) < 4 or d[1] or d[3]}),
           "rule": "distinct (template count, inclusion edge set, flag set, redirect placement, probe-before-add set) cases with "
                   "at least one edge or redirect",
           "failures": list(failures.values()), "samples": samples,
@@ -174,6 +174,70 @@ for _ in range(150 if tier == "quick" else 1500):
     reds = [(rng.choice(["to", "from"]), rng.randrange(n)) for _ in range(rng.randint(0, 2))]
     probe = [i for i in range(n) if rng.random() < 0.3]
     run_case(n, edges, flags, reds, probe)
+# pages that reach the store through a JSON override file (entries may omit need_pre_expand / model)
+def run_override_case(omit_keys):
+    global evaluations
+    import json as _json
+    import tempfile as _tf
+    from pathlib import Path as _P
+    from wikitextprocessor.dumpparser import overwrite_pages
+    evaluations += 1
+    with quiet_stdout():
+        ctx = Wtp(quiet=True)
+    tmpd = _tf.mkdtemp(prefix="verif_c17_")
+    try:
+        ctx.add_page("Template:A", 10, "x ==h==")
+        ctx.add_page("Template:B", 10, "{{A}} x")
+        ctx.add_page("Template:Plain", 10, "p")
+        ctx.add_page("Template:MA", 10, None, redirect_to="Template:TJ", need_pre_expand=True)
+        entries = {"Template:RJ": {"namespace_id": 10, "redirect_to": "Template:A"},
+                   "Template:RK": {"namespace_id": 10, "redirect_to": "Template:Plain"},
+                   "Template:OJ": {"namespace_id": 10, "body": "{{B}} y"},
+                   "Template:TJ": {"namespace_id": 10, "body": "t"}}
+        if not omit_keys:
+            for e in entries.values():
+                e["need_pre_expand"] = False
+                e["model"] = "wikitext"
+        f = _P(tmpd) / "override.json"
+        f.write_text(_json.dumps(entries), encoding="utf-8")
+        with quiet_stdout():
+            overwrite_pages(ctx, [f], True)
+        ctx.db_conn.commit()
+
+        def classify(c, page):
+            b = page.body or ""
+            return {nm for nm in ("A", "B", "Plain", "OJ", "TJ") if "{{%s}}" % nm in b}, "==h==" in b
+        signal.alarm(10)
+        try:
+            with quiet_stdout():
+                ctx.analyze_templates(classify)
+        except Timeout:
+            fail("core:Wtp.analyze_templates#terminates", "no result within 10 s (override case)", {"omit_keys": omit_keys}, "timeout")
+            finish()
+        finally:
+            signal.alarm(0)
+        got = {p.title for p in ctx.get_all_pages([10]) if p.need_pre_expand}
+        want = {"Template:" + n for n in ("A", "B", "OJ", "RJ", "MA", "TJ")}
+        if got != want:
+            fail("core:Wtp.analyze_templates#marks-exactly-the-least-closed-set[json-override]",
+                 f"pages written through a JSON override file ({'keys omitted' if omit_keys else 'all keys given'}): "
+                 f"marked {sorted(got)} want {sorted(want)}", {"omit_keys": omit_keys}, "missing" if want - got else "extra")
+        distinct.add(("override", omit_keys))
+    finally:
+        import shutil as _sh
+        _sh.rmtree(tmpd, ignore_errors=True)
+        try:
+            ctx.close_db_conn()
+        except Exception:
+            pass
+
+
+run_override_case(False)
+run_override_case(True)
+# names whose stored form is not NFC (decomposed accent, Angstrom sign): looked up exactly as stored
+for pair in (("e\u0301x", "zz"), ("\u212bng", "zz"), ("ko\u0308ln", "zz")):
+    run_case(3, [(0, 1)], {0}, [], names_override=["A", pair[0], pair[1]])
+    run_case(3, [(0, 1), (1, 2)], {0}, [("to", 1)], names_override=["A", pair[0], pair[1]])
 # case siblings whose upper-case form has the HIGHER code point (the includer is the lower-case one)
 for pair in (("ÿx", "Ÿx"), ("µ-box", "Μ-box"), ("lower", "Lower")):
     for inc in (1, 2):
